@@ -219,7 +219,19 @@ func (g *G) concat() X {
 
 func (g *G) unaryMinus() X {
 	g.use("unary_minus")
-	o := g.at(g.leafValue(), PPrimary)
+	var o X
+	switch {
+	case !g.F.NoNestedSign && g.depth < g.F.MaxDepth && g.chance(20, "nested_sign"):
+		// - - a : a sign applied to a signed operand (written "--a" it would be a comment)
+		g.use("nested_unary_minus")
+		defer g.deeper()()
+		o = g.unaryMinus()
+	case g.depth < g.F.MaxDepth && g.chance(20, "minus_paren"):
+		defer g.deeper()()
+		o = g.at(g.arith(), PPrimary)
+	default:
+		o = g.at(g.leafValue(), PPrimary)
+	}
 	return X{cat(sym("-"), o.T), &ast.UnaryExpression{Operator: ast.Minus, Expr: o.N}, PUMinus}
 }
 
